@@ -217,6 +217,16 @@ func (u *Unit) applyContract(fr *Frame, st *State, x *ssa.Call, fn *ssa.Function
 	a1 := u.fresh("alloc", SInt)
 	u.assume(post.pc, Ge(a1, a0))
 	post.comps["alloc"] = a1
+	// ghost call counters may advance (contracts say by how much)
+	for _, g := range []string{"epoch", "vepoch"} {
+		if !c.mentionsGhost(g) {
+			continue // the contract promises (and its verification checks) that the counter is unchanged
+		}
+		g0 := u.comp(post, g)
+		g1 := u.fresh(g, SInt)
+		u.assume(post.pc, Ge(g1, g0))
+		post.comps[g] = g1
+	}
 	// modifies
 	for _, cl := range c.Clauses {
 		if cl.Kind != "modifies" {
@@ -563,6 +573,11 @@ func (u *Unit) funcMods(f *ssa.Function, set map[string]bool, depth int) {
 
 func (u *Unit) contractMods(c *Contract, f *ssa.Function, set map[string]bool) {
 	set["alloc"] = true
+	for _, g := range []string{"epoch", "vepoch"} {
+		if c.mentionsGhost(g) {
+			set[g] = true
+		}
+	}
 	for _, cl := range c.Clauses {
 		if cl.Kind != "modifies" {
 			continue
